@@ -1,6 +1,7 @@
 CONSTANTS Urls <- UrlsC
           Texts <- TextsC
           Cfgs <- OneCfg
+          RebuildOnlyIfChanged = FALSE
           IdentsAccumulate = FALSE
           ForgetIdentRecord = TRUE
           ConfigRebuilds = TRUE
